@@ -133,6 +133,12 @@ def validate_request(request, json_config):
 
     # Check request version
     version = get_version(request)
+    if version == 1.0 and json_config.version >= 2:
+        # JSON-RPC 1.0 request on a JSON-RPC 2.0 server: answer its errors
+        # in the 1.0 format, like its results
+        json_config = json_config.copy()
+        json_config.version = 1.0
+
     if not version:
         fault = Fault(
             -32600,
